@@ -16,6 +16,7 @@ import (
 	"math/rand"
 	"net"
 	"strconv"
+	"strings"
 
 	"github.com/Jigsaw-Code/outline-sdk/transport/shadowsocks"
 	"github.com/Jigsaw-Code/outline-ss-server/service"
@@ -167,6 +168,53 @@ func buildPlan(rng *rand.Rand, c int, hs, tk string, key keyInfo, kinds []kv, nt
 		ssw.SetSaltGenerator(service.NewServerSaltGenerator(key.secret))
 	}
 	take := func() []byte { b := append([]byte(nil), wire.Bytes()...); wire.Reset(); return b }
+	craft := ""
+	if ov != nil {
+		craft = ov.Craft
+	}
+	// crafted streams are sealed chunk by chunk with the key's AEAD (the SDK writer cannot emit these)
+	var enc *chunkEnc
+	var encSalt []byte
+	if craft == "zero" || craft == "overlen" {
+		encSalt = randBytes(rng, key.key.SaltSize())
+		enc = newChunkEnc(key.key, encSalt)
+	}
+	seal := func(pl []byte, data bool) []byte { // one application write -> wire bytes
+		if enc == nil {
+			ssw.Write(pl)
+			return take()
+		}
+		var out []byte
+		if encSalt != nil {
+			out = append(out, encSalt...)
+			encSalt = nil
+		}
+		for len(pl) > 0 || out == nil {
+			n := len(pl)
+			if n > 0x3FFF {
+				n = 0x3FFF
+			}
+			if data && craft == "zero" {
+				out = append(out, enc.chunk(0, nil)...)
+			}
+			lf := n
+			if data && craft == "overlen" {
+				lf |= []int{0x4000, 0x8000, 0xC000}[rng.Intn(3)]
+			}
+			out = append(out, enc.chunk(lf, pl[:n])...)
+			pl = pl[n:]
+			if len(pl) == 0 {
+				break
+			}
+		}
+		return out
+	}
+	dataSize := func() int {
+		if craft == "full" {
+			return 0x3FFF
+		}
+		return pickSize(rng)
+	}
 
 	npre := 0
 	for _, k := range kinds {
@@ -223,12 +271,25 @@ func buildPlan(rng *rand.Rand, c int, hs, tk string, key keyInfo, kinds []kv, nt
 				pl = append(append([]byte(nil), addr...), d...)
 			case kAddrPart:
 				cut := 1 + rng.Intn(len(addr)-1)
+				if strings.HasPrefix(craft, "trunc-") {
+					if n, _ := strconv.Atoi(craft[6:]); n >= 1 && n < len(addr) {
+						cut = n
+					}
+				}
 				pl = addr[:cut]
 				addr = addr[cut:] // rest goes with addrrest
 			case kBadAddr:
-				switch rng.Intn(3) {
+				choice := rng.Intn(3)
+				if strings.HasPrefix(craft, "atyp-") {
+					choice = 0
+				}
+				switch choice {
 				case 0:
 					bad := []byte{0, 2, 5, 255, 6, 127}[rng.Intn(6)]
+					if strings.HasPrefix(craft, "atyp-") {
+						n, _ := strconv.Atoi(craft[5:])
+						bad = byte(n)
+					}
 					pl = append([]byte{bad}, randBytes(rng, 6+rng.Intn(20))...)
 					p.Variant = fmt.Sprintf("atyp-%d", bad)
 				default:
@@ -239,8 +300,7 @@ func buildPlan(rng *rand.Rand, c int, hs, tk string, key keyInfo, kinds []kv, nt
 				pl = addr
 			}
 		}
-		ssw.Write(pl)
-		first = take()
+		first = seal(pl, false)
 		if p.Variant == "addr-chunk-corrupt" {
 			ss := key.key.SaltSize()
 			off := ss + 2 + key.key.TagSize() + rng.Intn(len(first)-ss-2-key.key.TagSize())
@@ -306,21 +366,18 @@ func buildPlan(rng *rand.Rand, c int, hs, tk string, key keyInfo, kinds []kv, nt
 		case k.k == kAddr || k.k == kAddrPlus || k.k == kAddrPart || k.k == kBadAddr:
 			b = rest
 		case k.k == kAddrRest:
-			ssw.Write(addr)
-			b = take()
+			b = seal(addr, false)
 		case k.k == kData:
-			d := randBytes(rng, pickSize(rng))
+			d := randBytes(rng, dataSize())
 			ndata++
 			p.Payloads = append(p.Payloads, d)
-			ssw.Write(d)
-			b = take()
+			b = seal(d, true)
 		case k.k == kBad:
 			// a chunk that does not authenticate.  If junk follows in the script, the corruption is in the length
 			// block and the junk token is the chunk's own payload block; otherwise it is in the payload block
 			// (the reader consumes the whole chunk before failing).
 			d := randBytes(rng, 2+pickSize(rng)%4000)
-			ssw.Write(d)
-			ch := take()
+			ch := seal(d, false)
 			lb := 2 + key.key.TagSize()
 			if i+1 < len(body) && body[i+1].k == kJunk && rng.Intn(2) == 0 {
 				flipBit(ch, rng.Intn(lb), rng)
@@ -341,8 +398,7 @@ func buildPlan(rng *rand.Rand, c int, hs, tk string, key keyInfo, kinds []kv, nt
 				note = "payload-of-bad-chunk"
 			} else if rng.Intn(2) == 0 {
 				d := randBytes(rng, 1+pickSize(rng)%3000)
-				ssw.Write(d) // a VALID next chunk of the same stream
-				b = take()
+				b = seal(d, false) // a VALID next chunk of the same stream
 				note = "valid-next-chunk"
 			} else {
 				b = randBytes(rng, 18+rng.Intn(2000))
